@@ -31,6 +31,7 @@ func runC11(p *core.Prog, r *core.Report) {
 	c11R4(p, r)
 	c11R5(p, r)
 	c11R6(p, r)
+	c11R13(p, r)
 	c11R7(p, r)
 	c11R8(p, r)
 	c11R9(p, r)
@@ -1070,4 +1071,220 @@ func c11R12(p *core.Prog, r *core.Report) {
 	if n == 0 {
 		r.Held(rule, "internal/reghttp", "headers in a log entry", "", "no http.Header is handed to a log call")
 	}
+}
+
+// ---------------------------------------------------------------------------------------------
+// R13 the text a secret is cut out of is a secret
+
+// c11R13: R6 follows values that were read from a password or token field. A secret also exists
+// before it is stored there: the command-line string `reg=…,user=…,pass=…`, the map it is split
+// into, a `user:password` pair before the cut. Whatever a stored secret was derived from by string
+// operations is a carrier of it, and a carrier that reaches the logger prints the secret (found D23
+// on the unchanged tree: two warnings of regctl's --host parsing logged the whole flag value).
+func c11R13(p *core.Prog, r *core.Report) {
+	const rule = "C11.R13"
+	r.Rule(rule, "the text a secret is cut out of is a secret: for every store into a password/token field, the strings, byte slices and string maps the stored value is derived from (through map lookups, strings/bytes/base64/url functions and the module's string parsers) do not reach a slog argument of the same function — except through a lookup in such a map with a constant key other than the one the secret is stored under", 1)
+	isCutter := func(f *types.Func) bool {
+		if f == nil || f.Pkg() == nil {
+			return false
+		}
+		switch f.Pkg().Path() {
+		case "strings", "bytes", "encoding/base64", "net/url", modPath("internal/strparse"):
+			return true
+		}
+		return false
+	}
+	carrierType := func(t types.Type) bool {
+		switch u := t.Underlying().(type) {
+		case *types.Basic:
+			return u.Info()&types.IsString != 0
+		case *types.Slice:
+			b, ok := u.Elem().Underlying().(*types.Basic)
+			return ok && (b.Kind() == types.Byte || b.Kind() == types.Uint8 || b.Info()&types.IsString != 0)
+		case *types.Map:
+			return true
+		case *types.Tuple:
+			return true
+		}
+		return false
+	}
+	stores, flagged := 0, 0
+	for _, fn := range p.ModFuncs {
+		if fn.Synthetic != "" || fn.Parent() != nil || len(fn.Blocks) == 0 {
+			continue
+		}
+		unit := core.WithAnon(fn)
+		carriers := map[ssa.Value]string{}     // value -> secret it carries
+		secretKeys := map[ssa.Value]map[string]bool{} // carrier map -> keys the secret is stored under
+		var back func(v ssa.Value, what string, depth int)
+		back = func(v ssa.Value, what string, depth int) {
+			if v == nil || depth > 8 {
+				return
+			}
+			if _, isC := v.(*ssa.Const); isC {
+				return
+			}
+			if !carrierType(v.Type()) {
+				return
+			}
+			if _, seen := carriers[v]; seen {
+				return
+			}
+			carriers[v] = what
+			switch x := v.(type) {
+			case *ssa.Lookup:
+				if k, ok := core.ConstString(x.Index); ok {
+					if secretKeys[x.X] == nil {
+						secretKeys[x.X] = map[string]bool{}
+					}
+					secretKeys[x.X][k] = true
+				}
+				back(x.X, what, depth+1)
+			case *ssa.Extract:
+				back(x.Tuple, what, depth+1)
+			case *ssa.Phi:
+				for _, e := range x.Edges {
+					back(e, what, depth+1)
+				}
+			case *ssa.Convert:
+				back(x.X, what, depth+1)
+			case *ssa.ChangeType:
+				back(x.X, what, depth+1)
+			case *ssa.Slice:
+				back(x.X, what, depth+1)
+			case *ssa.BinOp:
+				back(x.X, what, depth+1)
+				back(x.Y, what, depth+1)
+			case *ssa.UnOp:
+				if x.Op == token.MUL {
+					if al, ok := x.X.(*ssa.Alloc); ok {
+						for _, st := range core.ReachingStores(x, al) {
+							back(st.Val, what, depth+1)
+						}
+					}
+				}
+			case *ssa.Call:
+				if isCutter(core.Callee(x)) {
+					for _, a := range x.Call.Args {
+						for _, e := range variadicElems(a) {
+							back(e, what, depth+1)
+						}
+					}
+				}
+			}
+		}
+		for _, g := range unit {
+			for _, b := range g.Blocks {
+				for _, in := range b.Instrs {
+					st, ok := in.(*ssa.Store)
+					if !ok {
+						continue
+					}
+					fa, ok := st.Addr.(*ssa.FieldAddr)
+					if !ok {
+						continue
+					}
+					owner, fld := core.FieldAddrInfo(fa)
+					if !isSecretOwner(owner) || !secretField.MatchString(fld) {
+						continue
+					}
+					if _, isC := st.Val.(*ssa.Const); isC {
+						continue
+					}
+					stores++
+					before := len(carriers)
+					back(st.Val, owner.Obj().Name()+"."+fld, 0)
+					_ = before
+				}
+			}
+		}
+		if len(carriers) == 0 {
+			continue
+		}
+		// does a logger argument reach a carrier as a whole?
+		var hits func(v ssa.Value, depth int, seen map[ssa.Value]bool) string
+		hits = func(v ssa.Value, depth int, seen map[ssa.Value]bool) string {
+			if v == nil || depth > 10 || seen[v] {
+				return ""
+			}
+			seen[v] = true
+			if lk, ok := v.(*ssa.Lookup); ok {
+				if keys := secretKeys[lk.X]; keys != nil {
+					if k, isK := core.ConstString(lk.Index); isK && !keys[k] {
+						return "" // another entry of the parsed map
+					}
+				}
+			}
+			if what, ok := carriers[v]; ok {
+				return what
+			}
+			switch x := v.(type) {
+			case *ssa.Lookup:
+				return hits(x.X, depth+1, seen)
+			case *ssa.Extract:
+				return hits(x.Tuple, depth+1, seen)
+			case *ssa.Phi:
+				for _, e := range x.Edges {
+					if s := hits(e, depth+1, seen); s != "" {
+						return s
+					}
+				}
+			case *ssa.Convert:
+				return hits(x.X, depth+1, seen)
+			case *ssa.ChangeType:
+				return hits(x.X, depth+1, seen)
+			case *ssa.MakeInterface:
+				return hits(x.X, depth+1, seen)
+			case *ssa.Slice:
+				return hits(x.X, depth+1, seen)
+			case *ssa.BinOp:
+				if s := hits(x.X, depth+1, seen); s != "" {
+					return s
+				}
+				return hits(x.Y, depth+1, seen)
+			case *ssa.UnOp:
+				if x.Op == token.MUL {
+					if al, ok := x.X.(*ssa.Alloc); ok {
+						for _, st := range core.ReachingStores(x, al) {
+							if s := hits(st.Val, depth+1, seen); s != "" {
+								return s
+							}
+						}
+					}
+				}
+			case *ssa.Call:
+				cal := core.Callee(x)
+				if cal != nil && cal.Pkg() != nil {
+					switch cal.Pkg().Path() {
+					case "fmt", "strings", "bytes", "encoding/base64", "net/url":
+						for _, a := range x.Call.Args {
+							for _, e := range variadicElems(a) {
+								if s := hits(e, depth+1, seen); s != "" {
+									return s
+								}
+							}
+						}
+					}
+				}
+			}
+			return ""
+		}
+		lab := labeler{}
+		for _, g := range unit {
+			core.Calls(g, func(c ssa.CallInstruction) {
+				if !isSlogSink(core.Callee(c)) {
+					return
+				}
+				for _, a := range c.Common().Args {
+					for _, e := range variadicElems(a) {
+						if s := hits(e, 0, map[ssa.Value]bool{}); s != "" {
+							flagged++
+							r.Violated(rule, p.FuncName(fn), lab.next("slog argument carries "+s), p.Pos(c.Pos()), "the logged value is the text (or the parsed map) that "+s+" is cut out of in this function: the log line prints the secret")
+						}
+					}
+				}
+			})
+		}
+	}
+	r.Check(stores > 0, rule, "module", "stores into secret fields followed to their sources", "-", fmt.Sprintf("%d non-constant store(s) into password/token fields examined, %d logger argument(s) carry their source text", stores, flagged))
 }
